@@ -15,7 +15,7 @@ def node_matches(fn, nid, m):
     if "callee" in m:
         c = n.get("callee", "")
         cs = m["callee"] if isinstance(m["callee"], (list, tuple)) else [m["callee"]]
-        if not any(c == x or c.endswith("::" + x) or c.endswith(x) for x in cs):
+        if not any(c == x or c.endswith("::" + x) for x in cs):
             return False
     if "callee_re" in m and not re.search(m["callee_re"], n.get("callee", "")):
         return False
